@@ -2,6 +2,7 @@
 
 mod checks;
 mod core;
+mod gen;
 mod server;
 
 use std::collections::{BTreeMap, BTreeSet};
@@ -73,6 +74,20 @@ fn main() {
             };
             let h = std::thread::Builder::new().stack_size(kb * 1024).spawn(move || vibesql_parser::Parser::parse_sql(&input).is_ok()).unwrap();
             println!("ok parsed={:?}", h.join().unwrap());
+        }
+        "sql" => {
+            // sql <file>: run ';'-separated statements through the Session and print outcomes
+            crate::core::session::install_panic_hook();
+            let text = std::fs::read_to_string(&args[2]).unwrap();
+            let mut s = crate::core::session::Session::new();
+            for stmt in text.split(";\n") {
+                let stmt = stmt.trim().trim_end_matches(';');
+                if stmt.is_empty() {
+                    continue;
+                }
+                let o = s.exec(stmt);
+                println!("{}\n    -> {}   probes={:?}", stmt, o.brief(), s.last_probes);
+            }
         }
         "list" => {
             for c in checks::registry() {
